@@ -260,7 +260,19 @@ pub fn run(tier: Tier, seed: u64) -> i32 {
         let bytes = refmodel::ctr_bytes(seed, &format!("c13-{i}"), n);
         set.push(bytes.iter().map(|b| (0x20 + b % 95) as char).collect());
     }
-    let objs: Vec<(NormalizedString, Vec<u8>)> = set.iter().map(|s| (NormalizedString::new(s).unwrap(), normalize(s).unwrap())).collect();
+    // strings the library refuses although the rule accepts them are reported by check_full and left out here
+    let mut kept: Vec<String> = vec![];
+    let mut objs: Vec<(NormalizedString, Vec<u8>)> = vec![];
+    for s in &set {
+        match catch(|| NormalizedString::new(s)) {
+            Ok(Ok(n)) => {
+                objs.push((n, normalize(s).unwrap()));
+                kept.push(s.clone());
+            }
+            _ => check_full(&report, s),
+        }
+    }
+    let set = kept;
     let pair_cases = AtomicU64::new(0);
     (0..objs.len()).into_par_iter().for_each(|i| {
         for j in 0..objs.len() {
